@@ -1,10 +1,10 @@
 SPECIFICATION Spec
 CONSTANT Depth = 3
-CONSTANT RcvMode = 1
+CONSTANT RcvMode = 0
 CONSTANT PeerRcv = 1
 CONSTANT SndMode = 2
 CONSTANT PeerH1 = 5
 CONSTANT PeerH3 = 8
-CONSTANT Side = "listener"
+CONSTANT Side = "client"
 INVARIANT Emit
 CHECK_DEADLOCK FALSE
